@@ -54,6 +54,16 @@ else:
 FLAG_REF = 0x80
 
 
+class _NullType:
+    """marshal.c's NULL (type code "0"): ends a dict; it is not None."""
+
+    def __repr__(self):
+        return "<marshal NULL>"
+
+
+_NULL = _NullType()
+
+
 # The keys in the following dictionary are unmarshal codes, like "s",
 # "c", "<", etc. The values of the dictionary are names of routines
 # to call that do the data unmarshaling.
@@ -206,6 +216,14 @@ class _VersionIndependentUnmarshaller:
         """
         In Python3 strings are bytes type
         """
+        obj = self.r_object_or_null(bytes_for_s=bytes_for_s)
+        return None if obj is _NULL else obj
+
+    def r_object_or_null(self, bytes_for_s=False):
+        """
+        Like r_object(), but marshal's NULL is returned as _NULL so that
+        the dict reader can tell it from None.
+        """
         byte1 = ord(self.fp.read(1))
 
         # FLAG_REF indicates whether we "intern" or
@@ -241,7 +259,7 @@ class _VersionIndependentUnmarshaller:
     # In C this NULL. Not sure what it should
     # translate here. Note NULL != None which is below
     def t_C_NULL(self, save_ref, bytes_for_s=False):
-        return None
+        return _NULL
 
     def t_None(self, save_ref, bytes_for_s=False):
         return None
@@ -427,11 +445,11 @@ class _VersionIndependentUnmarshaller:
         ret = self.r_ref(dict(), save_ref)
         # dictionary
         while True:
-            key = self.r_object(bytes_for_s=bytes_for_s)
-            if key is None:
+            key = self.r_object_or_null(bytes_for_s=bytes_for_s)
+            if key is _NULL:
                 break
-            val = self.r_object(bytes_for_s=bytes_for_s)
-            if val is None:
+            val = self.r_object_or_null(bytes_for_s=bytes_for_s)
+            if val is _NULL:
                 break
             ret[key] = val
             pass
